@@ -51,7 +51,7 @@ Proof. induction i; destruct l; simpl; auto. Qed.
 Section Proofs.
   Variable F : Type.
   Variable conv : string -> convres F.
-  Variable ticks : nat -> nat -> F -> option Z.
+  Variable ticks : nat -> nat -> F -> tickres.
   Notation set_param := (set_param conv ticks).
   Notation set_leaf := (set_leaf conv ticks).
   Notation set_params := (set_params conv ticks).
@@ -165,11 +165,11 @@ Section Proofs.
     exists p, t, l, l'. repeat split; auto. eapply get_upd_same; eauto.
   Qed.
 
-  (* leaf setters that keep the old value on every error *)
+  (* every leaf setter keeps the old value on every error *)
   Lemma set_leaf_error_keeps : forall t l val l' er,
-    set_leaf t l "" val = (l', Some er) -> er <> ENumSuffix -> (forall pd, t <> LDur pd) -> l' = l.
+    set_leaf t l "" val = (l', Some er) -> l' = l.
   Proof.
-    intros t l val l' er H Hs Hd. unfold Params.set_leaf in H. simpl in H.
+    intros t l val l' er H. unfold Params.set_leaf in H. cbn [String.eqb negb] in H. cbv iota in H.
     destruct t.
     - destruct ((val =? "0") || (val =? "false")); [discriminate|].
       destruct ((val =? "1") || (val =? "true")); [discriminate|]. now inversion H.
@@ -178,23 +178,18 @@ Section Proofs.
     - destruct (scan_real_len val); [|now inversion H].
       destruct (conv (stake n val)); try (now inversion H).
       destruct (sdrop n val =? ""); inversion H; subst; congruence.
-    - exfalso. eapply Hd; eauto.
+    - destruct (Params.parse_dur conv ticks (S (String.length val)) period val 0%Z) as [t' [e|]]; [now inversion H|discriminate].
     - destruct (assoc val tbl); [discriminate|]. now inversion H.
     - now inversion H.
   Qed.
 
-  (* REJECTED => UNCHANGED, under the hypotheses that exclude the two confirmed defects
-     (trailing characters after a number; any rejected duration). Full statement (no hypotheses) is refuted below. *)
-  Theorem rejected_leaves_unchanged_partial : forall sch v key val v' er,
-    set_param sch v key val = (v', Some er) ->
-    er <> ENumSuffix ->
-    (forall p pd, resolve sch key <> Some (p, LDur pd)) ->
-    v' = v.
+  (* REJECTED => UNCHANGED: whenever set_param throws, the whole nested structure is exactly what it was *)
+  Theorem rejected_leaves_unchanged : forall sch v key val v' er,
+    set_param sch v key val = (v', Some er) -> v' = v.
   Proof.
-    intros sch v key val v' er H Hs Hd.
+    intros sch v key val v' er H.
     destruct (set_param_shape _ _ _ _ _ _ H) as [[-> _]|(p & t & l & l' & Hr & Hg & Hl & ->)]; auto.
-    assert (l' = l).
-    { eapply set_leaf_error_keeps; eauto. intros pd ->. eapply Hd; eauto. }
+    assert (l' = l) by (eapply set_leaf_error_keeps; eauto).
     subst. now apply upd_get_id.
   Qed.
 
@@ -227,14 +222,14 @@ Section Proofs.
 
   Theorem trailing_chars_rejected_int : forall lo hi l val z rest,
     scan_int lo hi val = IVal z rest -> rest <> "" ->
-    set_leaf (LInt lo hi) l "" val = (VInt z, Some ENumSuffix).
+    set_leaf (LInt lo hi) l "" val = (l, Some ENumSuffix).
   Proof.
     intros. unfold Params.set_leaf. simpl. rewrite H.
     destruct (rest =? "") eqn:E; [apply String.eqb_eq in E; contradiction|]. reflexivity.
   Qed.
   Theorem trailing_chars_rejected_real : forall l val n x,
     scan_real_len val = Some n -> conv (stake n val) = CVal x -> sdrop n val <> "" ->
-    set_leaf LReal l "" val = (VReal x, Some ENumSuffix).
+    set_leaf LReal l "" val = (l, Some ENumSuffix).
   Proof.
     intros. unfold Params.set_leaf. simpl. rewrite H, H0.
     destruct (sdrop n val =? "") eqn:E; [apply String.eqb_eq in E; contradiction|]. reflexivity.
@@ -257,7 +252,7 @@ Section Proofs.
       set (s2 := String a0 s1). destruct (scan_real_len s2); [|now rewrite Z.add_0_r].
       destruct (conv (stake n s2)); try (now rewrite Z.add_0_r).
       destruct (unit_of _); [|now rewrite Z.add_0_r].
-      destruct (ticks p n0 x); [|now rewrite Z.add_0_r].
+      destruct (ticks p n0 x); try (now rewrite Z.add_0_r).
       rewrite IHfuel. rewrite (IHfuel _ _ (0 + z)%Z).
       destruct (parse_dur fuel p _ 0%Z). f_equal. lia.
   Qed.
@@ -284,8 +279,9 @@ Section Proofs.
             | None => (t, Some EDurUnits)
             | Some u =>
               match ticks p u x with
-              | None => (t, Some EDurUB)
-              | Some dz => parse_dur fuel p (sdrop k rest) (t + dz)%Z
+              | TUB => (t, Some EDurUB)
+              | TRange => (t, Some EDurRange)
+              | TOk dz => parse_dur fuel p (sdrop k rest) (t + dz)%Z
               end
             end
           end
@@ -299,7 +295,7 @@ Section Proofs.
     s <> "" -> count_while is_trim s = 0 ->
     scan_real_len s = Some n -> conv (stake n s) = CVal x ->
     unit_of (stake (count_while (fun a => negb (is_unit_stop a)) (sdrop n s)) (sdrop n s)) = Some u ->
-    ticks p u x = Some dz ->
+    ticks p u x = TOk dz ->
     parse_dur (S fuel) p s t =
     parse_dur fuel p (sdrop (count_while (fun a => negb (is_unit_stop a)) (sdrop n s)) (sdrop n s)) (t + dz)%Z.
   Proof.
@@ -315,6 +311,35 @@ Section Proofs.
   Proof.
     intros. rewrite parse_dur_unfold. destruct s as [|a s]; [contradiction|]. rewrite H0.
     change (sdrop 0 (String a s)) with (String a s). cbv zeta. rewrite H1, H2, H3. reflexivity.
+  Qed.
+
+  (* a term whose number of units does not fit the representation (NaN, infinite, too large) is rejected *)
+  Theorem out_of_range_duration_rejected : forall fuel p s t n x u,
+    s <> "" -> count_while is_trim s = 0 ->
+    scan_real_len s = Some n -> conv (stake n s) = CVal x ->
+    unit_of (stake (count_while (fun a => negb (is_unit_stop a)) (sdrop n s)) (sdrop n s)) = Some u ->
+    ticks p u x = TRange ->
+    parse_dur (S fuel) p s t = (t, Some EDurRange).
+  Proof.
+    intros. rewrite parse_dur_unfold. destruct s as [|a s]; [contradiction|]. rewrite H0.
+    change (sdrop 0 (String a s)) with (String a s). cbv zeta. rewrite H1, H2, H3, H4. reflexivity.
+  Qed.
+
+  (* the digit '0' is not trimmed: a term may start with (or be) a zero *)
+  Theorem zero_not_trimmed : forall s, count_while is_trim (String "0"%char s) = 0.
+  Proof. reflexivity. Qed.
+
+  (* "0s", "0ms", ... : a zero-valued term with any of the units is accepted and adds nothing *)
+  Theorem zero_duration_term_accepted : forall p t x u (units : string),
+    In units ["s"; "ms"; "us"; s_micro; "ns"; "min"; "h"; ""] ->
+    conv "0" = CVal x -> unit_of units = Some u -> ticks p u x = TOk 0%Z ->
+    parse_dur (S (S (String.length units))) p (String "0"%char units) t = (t, None).
+  Proof.
+    intros p t x u units Hin Hc Hu Ht. simpl in Hin.
+    repeat (destruct Hin as [<-|Hin]; [
+      rewrite (parse_dur_term _ p _ t 1 x u 0%Z);
+        [rewrite Z.add_0_r; reflexivity | discriminate | reflexivity | reflexivity | exact Hc | exact Hu | exact Ht] |]).
+    contradiction.
   Qed.
 
   (* ---------------------------------------------------------------- set_params *)
@@ -422,6 +447,39 @@ Section Proofs.
         * rewrite <- G. eapply IH; eauto. intros. apply D; auto. now right.
       + eapply IH; eauto. intros. apply D; auto. now right.
   Qed.
+  (* a rejected option: the structure is exactly what the options before it (all accepted or skipped) made of it *)
+  Theorem set_params_rejected_unchanged : forall sch prefix opts v used i v' used' j er,
+    set_params sch v prefix opts used i = (v', used', Some (j, er)) ->
+    exists k used0, j = i + k /\ k < length opts /\
+      set_params sch v prefix (firstn k opts) used i = (v', used0, None) /\ used' = incr_nth j used0.
+  Proof.
+    induction opts as [|kv rest IH]; intros v used i v' used' j er H; [discriminate|].
+    rewrite set_params_cons in H.
+    destruct (opt_prefix kv =? prefix) eqn:E; simpl in H.
+    - destruct (set_param sch v (opt_key kv) (opt_value kv)) as [v1 [e1|]] eqn:S1.
+      + inversion H; subst. apply rejected_leaves_unchanged in S1. subst.
+        exists 0, used. simpl. split; [lia|]. split; [lia|]. split; [reflexivity|f_equal; lia].
+      + destruct (IH _ _ _ _ _ _ _ H) as (k & u0 & -> & Hk & Hs & ->).
+        exists (S k), u0. simpl length. split; [lia|]. split; [lia|]. split; [|f_equal; lia].
+        cbn [firstn]. rewrite set_params_cons, E. simpl. rewrite S1. exact Hs.
+    - destruct (IH _ _ _ _ _ _ _ H) as (k & u0 & -> & Hk & Hs & ->).
+      exists (S k), u0. simpl length. split; [lia|]. split; [lia|]. split; [|f_equal; lia].
+      cbn [firstn]. rewrite set_params_cons, E. simpl. exact Hs.
+  Qed.
+
+  (* vectors *)
+  Theorem vec_subkey_rejected : forall (old : list F) key val,
+    key <> "" -> set_vec conv old key val = (old, Some EIndexScalar).
+  Proof.
+    intros. unfold set_vec. destruct (key =? "") eqn:K; [apply String.eqb_eq in K; contradiction|]. reflexivity.
+  Qed.
+  Theorem vec_rejected_unchanged : forall (old v' : list F) key val er,
+    set_vec conv old key val = (v', Some er) -> v' = old.
+  Proof.
+    intros old v' key val er H. unfold set_vec in H.
+    destruct (negb (key =? "")); [now inversion H|].
+    destruct (set_vec_elems F conv (S (count_char ch_comma val)) val []) as [xs [e|]]; [now inversion H|discriminate].
+  Qed.
 End Proofs.
 
 (* ------------------------------------------------------------------ numbers are read exactly (positional decimal) *)
@@ -484,7 +542,7 @@ Qed.
 Section Exact.
   Variable F : Type.
   Variable conv : string -> convres F.
-  Variable ticks : nat -> nat -> F -> option Z.
+  Variable ticks : nat -> nat -> F -> tickres.
 
   (* an in-range decimal digit string d1...dn is stored as the integer sum d_i 10^(n-i), nothing is thrown *)
   Theorem int_read_exactly : forall lo hi (old : leafval F) ds,
@@ -504,31 +562,8 @@ Section Exact.
   Qed.
 End Exact.
 
-(* ------------------------------------------------------------------ refutations (the model is faithful to the code as it is) *)
-(* a tiny instance: reals are whole numbers, conv reads decimal digits, ticks = x * unit / period *)
+(* ------------------------------------------------------------------ a tiny executable instance for the non-vacuity examples *)
+(* reals are whole numbers, conv reads decimal digits, ticks = x * unit / period *)
 Definition convZ (s : string) : convres Z :=
   if Nat.eqb (count_while is_digit s) (String.length s) && negb (s =? "") then CVal (digits_val 0 s) else CMissing.
-Definition ticksZ (p u : nat) (x : Z) : option Z := Some (x * nth u unit_ns 1 / nth p unit_ns 1)%Z.
-
-Theorem rejected_number_half_written :
-  exists (sch : schema) (v v' : value Z) key val er,
-    set_param convZ ticksZ sch v key val = (v', Some er) /\ v' <> v.
-Proof.
-  exists (SStruct "S" [("max_iter", (0, SLeaf (LInt 0 4294967295)))]), (VNode [VLeaf (VInt 100)]), (VNode [VLeaf (VInt 7)]),
-         "max_iter", "7abc", ENumSuffix.
-  split; [vm_compute; reflexivity|discriminate].
-Qed.
-
-Theorem rejected_duration_half_written :
-  exists (sch : schema) (v v' : value Z) key val er,
-    set_param convZ ticksZ sch v key val = (v', Some er) /\ v' <> v.
-Proof.
-  exists (SStruct "S" [("max_time", (0, SLeaf (LDur 0)))]), (VNode [VLeaf (VDur 300000000000)]), (VNode [VLeaf (VDur 3600000000000)]),
-         "max_time", "1h30x", EDurUnits.
-  split; [vm_compute; reflexivity|discriminate].
-Qed.
-
-(* the vec setter has already resized (and partly overwritten) its target when an element is rejected *)
-Theorem rejected_vec_half_written :
-  exists val n xs er, set_vec convZ "" val = (n, xs, Some er) /\ n = 3 /\ xs = [1%Z; 2%Z].
-Proof. exists "1,2x,3", 3, [1%Z; 2%Z], ENumSuffix. vm_compute. auto. Qed.
+Definition ticksZ (p u : nat) (x : Z) : tickres := TOk (x * nth u unit_ns 1 / nth p unit_ns 1)%Z.
